@@ -137,6 +137,11 @@ func (d *director) end(quiescentIfDone bool) {
 //	   End(2) can never send.
 //	D3 (any mode): End(1) and ForceFlush(background ctx) pass the stopped check; Shutdown drains and
 //	   returns; End(1) fills the queue; the flush marker can never be sent.
+//
+// Both were repaired by ada0bc0 (the blocking sends also select on stopCh): the schedules are kept as
+// the real-code regression of that repair. The second call must RETURN. If it parks forever again,
+// the hang detector of d.end reports it as `hung` -- a violation that nothing suppresses (the D2/D3
+// entries of known_findings/C15.json are "fixed"), so the check exits 1.
 func bspRace(i int, name string, blocking, flush bool, tw *vh.TraceWriter, res *vh.Result, bound time.Duration) {
 	sc := Scenario{Name: name, Prov: "trace", Kinds: map[string]string{"b1": "batch"}, Init: []string{"b1"},
 		BSP: map[string]bspOpts{"b1": {qcap: 1, maxBatch: 1, blocking: blocking, timeout: time.Hour}}}
@@ -200,11 +205,19 @@ func bspRace(i int, name string, blocking, flush bool, tw *vh.TraceWriter, res *
 		ok = d.await(e1, "End(1) return")
 	}
 	close(g2.release)
-	_ = second
 	if !ok {
 		res.Count("directed_desync", 1)
 	}
-	d.end(true)
+	d.end(true) // waits for every call; a call parked forever inside the SDK is reported as hung
+	res.Count("bsp_race_schedules", 1)
+	select {
+	case <-second:
+		if ok {
+			res.Count("bsp_race_second_call_returned", 1)
+		}
+	default:
+		res.Count("bsp_race_second_call_not_returned", 1)
+	}
 }
 
 // slowShutdown: a processor's Shutdown is held (natural gate) while other goroutines call
@@ -283,11 +296,11 @@ func directedMain(args []string) {
 		i++
 		slowUnregister(i, tw, res, bound)
 		i++
-		bspRace(i, "D2-end-blocks-after-drain", true, false, tw, res, bound)
+		bspRace(i, "D2-end-after-drain-must-return", true, false, tw, res, bound)
 		i++
-		bspRace(i, "D3-flush-marker-blocks-after-drain", false, true, tw, res, bound)
+		bspRace(i, "D3-flush-marker-after-drain-must-return", false, true, tw, res, bound)
 		i++
-		bspRace(i, "D3-flush-marker-blocks-after-drain-blocking", true, true, tw, res, bound)
+		bspRace(i, "D3-flush-marker-after-drain-must-return-blocking", true, true, tw, res, bound)
 		i++
 	}
 	res.Evaluations = res.Executed
